@@ -138,7 +138,7 @@ class RetryFuture(_Future):
             # we consider ourselves as running - this should mean the delegate
             # future completed but callbacks haven't finished yet (and in fact,
             # we might decide to retry)
-            if self.delegate_future:
+            if self.delegate_future is not None:
                 return self.delegate_future.running() or self.delegate_future.done()
         return False
 
@@ -300,7 +300,7 @@ class RetryExecutor(CanCustomizeBind, Executor):
         min_job = None
         now = monotonic()
         for job in self._jobs:
-            if job.delegate_future:
+            if job.delegate_future is not None:
                 # It's already running, skip
                 continue
             if job.stop_retry:
@@ -414,7 +414,7 @@ class RetryExecutor(CanCustomizeBind, Executor):
                 if job.future is future:
                     self._log.debug("Try cancel: %s", job)
 
-                    if not job.delegate_future:
+                    if job.delegate_future is None:
                         self._log.debug("Successful cancel - no delegate: %s", job)
                         self._jobs.pop(idx)
                         metrics.RETRY_QUEUE.labels(executor=self._name).dec()
